@@ -7,12 +7,12 @@
      mecard_fields, mecard_adr_components  (+ Example mecard_adr_comma_confusion)
      escape_vcard_no_crlf, escape_vcard_name_no_crlf, vcard_escape_roundtrip, vcard_escape_name_roundtrip,
      vcard_struct_roundtrip, vcard_one_line_per_value, vcard_errors
-       (+ Examples vcard_birthday_trailing_newline, vcard_geo_zero_is_missing)
+       (+ Examples vcard_geo_zero_is_accepted)
      epc_amount_value, epc_amount_exact, epc_rounded_in_range, epc_refusals_lengths, epc_refusals_amount,
-     epc_refusals_size, epc_layout, epc_lengths_ok_spec
+     epc_refusals_size, epc_errors, epc_layout, epc_lengths_ok_spec
      geo_uri (+ Example geo_examples)
      utf8_roundtrip, unquote_quote_bytes, quote_utf8_roundtrip, mailto_uri, mailto_errors
-       (+ Examples mailto_body_without_question_mark, mailto_recipient_injection) *)
+       (+ Examples mailto_body_only, mailto_recipient_injection) *)
 From Coq Require Import ZArith List Bool Lia ZifyBool.
 From Segno Require Import Base.PyLite Model.Color Model.Helpers Ref.HelpersReader.
 Import ListNotations.
@@ -772,7 +772,7 @@ Definition vcard_expected (a : vcard_args) : list (str * vvalue) :=
                              or_empty (vc_region a); or_empty (vc_zipcode a); or_empty (vc_country a)])]
       else [])
   ++ x_date K_BDAY (vc_birthday a)
-  ++ (if geo_truthy (vc_lat a) && geo_truthy (vc_lng a)
+  ++ (if geo_given (vc_lat a) && geo_given (vc_lng a)
       then [(K_GEO, VVerbatim (geo_text (vc_lat a) ++ [59] ++ geo_text (vc_lng a)))] else [])
   ++ x_opt K_SOURCE (vc_source a)
   ++ x_opt K_NOTE (vc_memo a)
@@ -795,15 +795,14 @@ Lemma vcard_lines_shape a ls : vcard_lines a = Ok ls ->
 Proof.
   unfold vcard_lines. intros H.
   destruct (vcard_date K_BDAY (vc_birthday a)) as [bd|] eqn:Eb; cbn [bind] in H; [|discriminate H].
-  destruct ((geo_truthy (vc_lat a) && negb (geo_truthy (vc_lng a)))
-            || (geo_truthy (vc_lng a) && negb (geo_truthy (vc_lat a)))) eqn:Eg; [discriminate H|].
+  destruct (negb (Bool.eqb (geo_given (vc_lat a)) (geo_given (vc_lng a)))) eqn:Eg; [discriminate H|].
   destruct (vcard_date K_REV (vc_rev a)) as [rv|] eqn:Er; cbn [bind] in H; [|discriminate H].
   injection H as <-.
   apply vrender_date in Eb, Er. subst bd rv.
   unfold vcard_expected. rewrite !vrender_opt, !vrender_multi. rewrite !map_app.
   cbn [map app]. do 4 f_equal. rewrite <- !app_assoc. repeat f_equal.
   - unfold vcard_adr, vcard_adr_props. destruct (existsb truthy _); reflexivity.
-  - destruct (geo_truthy (vc_lat a) && geo_truthy (vc_lng a)); reflexivity.
+  - destruct (geo_given (vc_lat a) && geo_given (vc_lng a)); reflexivity.
 Qed.
 
 (* all property names used by the writer: non-empty, no ':' , no CR/LF, not starting with white space *)
@@ -830,7 +829,7 @@ Proof.
     try (first [apply x_opt_names | apply x_multi_names | apply x_date_names]; reflexivity).
   - repeat constructor.
   - destruct (existsb truthy _); repeat constructor.
-  - destruct (geo_truthy (vc_lat a) && geo_truthy (vc_lng a)); repeat constructor.
+  - destruct (geo_given (vc_lat a) && geo_given (vc_lng a)); repeat constructor.
 Qed.
 
 (* the values that are inserted without escaping *)
@@ -871,7 +870,7 @@ Proof.
     try (first [apply x_opt_values | apply x_multi_values | now apply x_date_values]).
   - constructor; [apply escape_vcard_name_no_crlf|]. constructor; [apply escape_vcard_no_crlf|constructor].
   - destruct (existsb truthy _); [|constructor]. constructor; [|constructor]. apply nocrlf_join_escaped.
-  - destruct (geo_truthy (vc_lat a) && geo_truthy (vc_lng a)); [|constructor].
+  - destruct (geo_given (vc_lat a) && geo_given (vc_lng a)); [|constructor].
     constructor; [|constructor]. cbn [snd raw_of_value]. rewrite !nocrlf_app, Hlat, Hlng. reflexivity.
 Qed.
 
@@ -898,8 +897,10 @@ Definition vcard_parsed (a : vcard_args) : list (str * str) :=
    unfolding) is BEGIN:VCARD, VERSION:3.0, one line "name:escaped value" per supplied value in the documented
    order, END:VCARD and a final empty piece; no line contains a raw CR or LF; each line splits at its first ':'
    into the property name and the raw value.  Hypothesis: the four values that the writer inserts verbatim
-   (birthday, rev, str(lat), str(lng)) contain no CR/LF - true for date objects and floats, NOT guaranteed by
-   the _looks_like_datetime regex (see vcard_birthday_trailing_newline). *)
+   (birthday, rev, str(lat), str(lng)) contain no CR/LF.  For inputs of the documented types this always holds:
+   str(float) has no line break, and a birthday / rev text is only written when the _looks_like_datetime oracle
+   bit is true; since commit 1d19f11 the pattern ends with \Z, so a matching text consists of (Unicode) digits
+   and '-', 'T', ':', 'Z' only.  The regex itself is not modelled, hence the explicit hypothesis. *)
 Theorem vcard_one_line_per_value a out :
   make_vcard_data a = Ok out ->
   Forall (fun s => nocrlf s = true) (vcard_verbatim a) ->
@@ -965,30 +966,14 @@ Proof.
   destruct (vc_birthday a) as [[s1 ok1]|]; [destruct (nonempty s1); [destruct ok1|]|];
   destruct (vc_rev a) as [[s2 ok2]|]; try (destruct (nonempty s2); [destruct ok2|]);
   cbn [bind] in H;
-  destruct ((geo_truthy (vc_lat a) && negb (geo_truthy (vc_lng a)))
-            || (geo_truthy (vc_lng a) && negb (geo_truthy (vc_lat a))));
+  destruct (negb (Bool.eqb (geo_given (vc_lat a)) (geo_given (vc_lng a))));
   cbn [bind] in H; congruence.
 Qed.
 Print Assumptions vcard_errors.
 
-(* The regex uses '$', which also matches before a trailing newline: birthday = '2020-01-01\n' is accepted
-   (oracle = true, as observed) and the BDAY line then contains a raw LF. *)
-Example vcard_birthday_trailing_newline :
-  let a := {| vc_name := [97]; vc_displayname := [98]; vc_email := []; vc_phone := []; vc_fax := [];
-              vc_videophone := []; vc_memo := None; vc_nickname := None;
-              vc_birthday := Some ([50;48;50;48;45;48;49;45;48;49;10], true); vc_url := [];
-              vc_pobox := None; vc_street := None; vc_city := None; vc_region := None; vc_zipcode := None;
-              vc_country := None; vc_org := None; vc_lat := None; vc_lng := None; vc_source := None;
-              vc_rev := None; vc_title := []; vc_photo_uri := []; vc_cellphone := []; vc_homephone := [];
-              vc_workphone := [] |} in
-  exists out, make_vcard_data a = Ok out /\
-              existsb (fun l => negb (nocrlf l)) (split_crlf out) = true.
-Proof. eexists. split; [reflexivity|]. vm_compute. reflexivity. Qed.
-
-(* `if lat and not lng or lng and not lat` / `if lat and lng` test the truthiness of the floats: latitude 0.0
-   (equator) or longitude 0.0 (prime meridian) count as "missing".  (0.0, 5.0) is refused, (0.0, 0.0) is
-   silently dropped. *)
-Example vcard_geo_zero_is_missing :
+(* GEO is written iff both lat and lng are given (`is not None`); exactly one of them given is refused.  The
+   truthiness bit of the argument is ignored: (0.0, 5.0) and (0.0, 0.0) are written. *)
+Example vcard_geo_zero_is_accepted :
   let mk lat lng :=
     {| vc_name := [97]; vc_displayname := [98]; vc_email := []; vc_phone := []; vc_fax := [];
        vc_videophone := []; vc_memo := None; vc_nickname := None; vc_birthday := None; vc_url := [];
@@ -996,10 +981,12 @@ Example vcard_geo_zero_is_missing :
        vc_country := None; vc_org := None; vc_lat := lat; vc_lng := lng; vc_source := None;
        vc_rev := None; vc_title := []; vc_photo_uri := []; vc_cellphone := []; vc_homephone := [];
        vc_workphone := [] |} in
-  make_vcard_data (mk (Some (false, [48; 46; 48])) (Some (true, [53; 46; 48]))) = Err ValueError /\
-  make_vcard_data (mk (Some (false, [48; 46; 48])) (Some (false, [48; 46; 48]))) =
-  make_vcard_data (mk None None).
-Proof. split; reflexivity. Qed.
+  vcard_expected (mk (Some (false, [48; 46; 48])) (Some (true, [53; 46; 48]))) =
+    [(K_N, VName [97]); (K_FN, VText [98]); (K_GEO, VVerbatim [48; 46; 48; 59; 53; 46; 48])] /\
+  (exists out, make_vcard_data (mk (Some (false, [48; 46; 48])) (Some (false, [48; 46; 48]))) = Ok out) /\
+  make_vcard_data (mk (Some (false, [48; 46; 48])) None) = Err ValueError /\
+  make_vcard_data (mk None (Some (true, [53; 46; 48]))) = Err ValueError.
+Proof. repeat split; try reflexivity. eexists. reflexivity. Qed.
 (* ============================================================================================ *)
 (* 9. decimal formatting: '{:.kf}' + rstrip('0').rstrip('.') *)
 
@@ -1564,17 +1551,27 @@ Qed.
 Theorem epc_refusals_lengths a : epc_lengths_ok a = false -> make_epc_qr_data encodable byte_len a = Err ValueError.
 Proof. intros H. rewrite epc_cases, H. reflexivity. Qed.
 
-(* ... an amount outside 0.01 .. 999999999.99 (or infinite) gives ValueError; NaN gives
-   decimal.InvalidOperation, which is NOT a ValueError (modelled as TypeErr): *)
-Theorem epc_refusals_amount a : epc_lengths_ok a = true ->
+(* ... an amount outside 0.01 .. 999999999.99, an infinite one, NaN, or a string that is not a number gives
+   ValueError (whatever the other arguments are): *)
+Theorem epc_refusals_amount a :
   match epc_amount a with
   | AFin d => amount_in_range d = false -> make_epc_qr_data encodable byte_len a = Err ValueError
-  | AInf _ => make_epc_qr_data encodable byte_len a = Err ValueError
-  | ANaN | ABad => make_epc_qr_data encodable byte_len a = Err TypeErr
+  | AInf _ | ANaN | ABad => make_epc_qr_data encodable byte_len a = Err ValueError
   end.
 Proof.
-  intros H. rewrite epc_cases, H. cbn [negb]. destruct (epc_amount a) as [d| |neg|]; cbn [epc_check_amount]; try reflexivity.
-  intros ->. reflexivity.
+  rewrite epc_cases. destruct (negb (epc_lengths_ok a)).
+  - destruct (epc_amount a); auto.
+  - destruct (epc_amount a) as [d| |neg|]; cbn [epc_check_amount]; try reflexivity. intros ->. reflexivity.
+Qed.
+
+(* the only exception classes: ValueError and its subclass UnicodeEncodeError *)
+Theorem epc_errors a e : make_epc_qr_data encodable byte_len a = Err e -> e = ValueError \/ e = UnicodeErr.
+Proof.
+  rewrite epc_cases. destruct (negb (epc_lengths_ok a)); [intros [= <-]; now left|].
+  destruct (epc_amount a) as [d| |neg|]; cbn [epc_check_amount]; try (intros [= <-]; now left).
+  destruct (amount_in_range d); [|intros [= <-]; now left]. cbv zeta.
+  destruct (negb (encodable (epc_charset a))); [intros [= <-]; now right|].
+  destruct (331 <? _); [intros [= <-]; now left|discriminate].
 Qed.
 
 (* ... and a payload longer than 331 bytes gives ValueError, an unencodable one UnicodeEncodeError: *)
@@ -1688,6 +1685,7 @@ Qed.
 End EPC.
 Print Assumptions epc_refusals_lengths.
 Print Assumptions epc_refusals_amount.
+Print Assumptions epc_errors.
 Print Assumptions epc_refusals_size.
 Print Assumptions epc_layout.
 (* ============================================================================================ *)
@@ -1913,20 +1911,15 @@ Definition mailto_entries (cc bcc : list str) (subject body : option str) : list
 
 Definition kv_render (e : str * str) : str := fst e ++ [61] ++ snd e.
 
-(* the case in which the writer emits '&body=' without any '?' before it *)
-Definition mailto_body_only (cc bcc : list str) (subject body : option str) : Prop :=
-  cc = [] /\ bcc = [] /\ subject = None /\ body <> None.
-
 Lemma mailto_shape to cc bcc subject body out :
   make_make_email_data to cc bcc subject body = Ok out ->
-  ~ mailto_body_only cc bcc subject body ->
   out = K_mailto ++ join [44] to ++
         (match mailto_entries cc bcc subject body with
          | [] => []
          | es => 63 :: join [38] (map kv_render es)
          end).
 Proof.
-  unfold make_make_email_data, mailto_body_only. intros H Hq.
+  unfold make_make_email_data. intros H.
   destruct to as [|t0 to]; [discriminate H|].
   unfold mailto_entries, email_addr_entry, email_text_entry, quoted_or_empty.
   destruct cc as [|c0 cc]; destruct bcc as [|b0 bcc]; cbn [email_addr_part] in H;
@@ -1935,7 +1928,6 @@ Proof.
     (destruct body as [b|]; cbn [email_text_part] in H;
       [destruct (quote_utf8 b) as [qb|] eqn:Eqb; cbn [bind] in H; [|discriminate H]|]);
     cbn [bind] in H; apply Ok_inj in H; subst out;
-    try (exfalso; apply Hq; repeat split; discriminate);
     unfold kv_render; cbn [app map fst snd];
     repeat match goal with |- context [join [38] (?x :: ?y :: ?r)] =>
              change (join [38] (x :: y :: r)) with (x ++ [38] ++ join [38] (y :: r)) end;
@@ -1997,21 +1989,20 @@ Proof.
   rewrite cut_first_app by exact K1. now rewrite IH.
 Qed.
 
-(* The mailto payload.  Provided (a) we are not in the body-only case (where the writer emits "&body=" without a
-   preceding '?': see mailto_body_without_question_mark), and (b) the recipient lists - which the writer joins
-   with ',' and inserts VERBATIM - contain no '?' (to) and no '&' (cc, bcc), the URI splits at the first '?',
-   then at '&' and at the first '=' into exactly the recipient part and the parameters cc, bcc, subject, body
-   (those that were given, in this order); subject and body are percent-encoded UTF-8 and decode to the input. *)
+(* The mailto payload.  Provided the recipient lists - which the writer joins with ',' and inserts VERBATIM -
+   contain no '?' (to) and no '&' (cc, bcc), the URI splits at the first '?', then at '&' and at the first '='
+   into exactly the recipient part and the parameters cc, bcc, subject, body (those that were given, in this
+   order; the first one is introduced by '?', the others by '&'); subject and body are percent-encoded UTF-8
+   and decode to the input. *)
 Theorem mailto_uri to cc bcc subject body out :
   make_make_email_data to cc bcc subject body = Ok out ->
-  ~ mailto_body_only cc bcc subject body ->
   ~ In 63 (join [44] to) -> ~ In 38 (join [44] cc) -> ~ In 38 (join [44] bcc) ->
   mailto_read out = Some (join [44] to, mailto_entries cc bcc subject body) /\
   (forall s, subject = Some s -> exists q, quote_utf8 s = Ok q /\ quoted_or_empty s = q /\ uri_text q = Some s) /\
   (forall b, body = Some b -> exists q, quote_utf8 b = Ok q /\ quoted_or_empty b = q /\ uri_text q = Some b).
 Proof.
-  intros H Hq Hto Hcc Hbcc. split.
-  - rewrite (mailto_shape _ _ _ _ _ _ H Hq).
+  intros H Hto Hcc Hbcc. split.
+  - rewrite (mailto_shape _ _ _ _ _ _ H).
     pose proof (mailto_entries_ok cc bcc subject body Hcc Hbcc) as Hes.
     unfold mailto_read. change [109; 97; 105; 108; 116; 111; 58] with K_mailto. rewrite strip_prefix_app.
     destruct (mailto_entries cc bcc subject body) as [|e es] eqn:Ees.
@@ -2030,7 +2021,7 @@ Proof.
     + intros s ->. cbn [email_text_part] in H. unfold quoted_or_empty.
       destruct (quote_utf8 s) as [q|] eqn:E; cbn [bind] in H; [|discriminate H].
       exists q. split; [reflexivity|]. split; [reflexivity|]. now apply quote_utf8_roundtrip in E.
-    + intros b ->. destruct (email_text_part d2 K_subject subject) as [ps|]; cbn [bind] in H; [|discriminate H].
+    + intros b ->. destruct (email_text_part d2 K_subject subject) as [[ps d3]|]; cbn [bind] in H; [|discriminate H].
       cbn [email_text_part] in H. unfold quoted_or_empty.
       destruct (quote_utf8 b) as [q|] eqn:E; cbn [bind] in H; [|discriminate H].
       exists q. split; [reflexivity|]. split; [reflexivity|]. now apply quote_utf8_roundtrip in E.
@@ -2060,11 +2051,10 @@ Proof.
 Qed.
 Print Assumptions mailto_errors.
 
-(* DEFECT reproduced by the model: to='a', body='x' (no cc, bcc, subject) gives 'mailto:a&body=x' - there is no
-   '?', so the body is part of the recipient. *)
-Example mailto_body_without_question_mark :
-  make_make_email_data [[97]] [] [] None (Some [120]) = Ok (K_mailto ++ [97; 38] ++ K_body ++ [61; 120]) /\
-  mailto_read (K_mailto ++ [97; 38] ++ K_body ++ [61; 120]) = Some ([97; 38] ++ K_body ++ [61; 120], []).
+(* to='a', body='x' (no cc, bcc, subject) gives 'mailto:a?body=x' (repaired by commit 578204b) *)
+Example mailto_body_only :
+  make_make_email_data [[97]] [] [] None (Some [120]) = Ok (K_mailto ++ [97; 63] ++ K_body ++ [61; 120]) /\
+  mailto_read (K_mailto ++ [97; 63] ++ K_body ++ [61; 120]) = Some ([97], [(K_body, [120])]).
 Proof. split; reflexivity. Qed.
 
 (* recipients are not encoded: to = 'a?subject=x', cc = 'c&body=evil' changes the structure *)
